@@ -36,9 +36,21 @@
 (*   stoAudit            the conditions asserted by stoAuditAll as the     *)
 (*                       invariant AuditInv                                *)
 (* Not modelled: the byte contents of B-tree nodes (the tree is the        *)
-(* function mfl), the relocation of the page map, foreign pages, automatic *)
-(* collection inside pagesGet (a Collect step may happen between any two   *)
-(* operations instead), blacklisting, tallies.                             *)
+(* function mfl; StoreTree.tla refines it), the relocation of the page     *)
+(* map, foreign pages, blacklisting, tallies.                              *)
+(*                                                                         *)
+(* Collections.  A Collect step may happen between any two operations      *)
+(* (stoGc called by the client, or pagesGet collecting at the start of an  *)
+(* allocation).  With Reentrant = TRUE the model also has the collections  *)
+(* that start in the MIDDLE of a public operation: piecePutMixed, called   *)
+(* by stoFree or by pieceGetMixed (frontier thrown away; remainder of a    *)
+(* split), links the piece with mxmemLink, which for a size that has no    *)
+(* carrier yet calls mxmemAllocDLL -> stoAllocInner -> pagesGet, and       *)
+(* pagesGet runs stoGc when no page is free.  Such an operation is split   *)
+(* into Begin (everything up to the page request), an optional PendGc (the *)
+(* nested collection, on the half-done state) and PendEnd (the rest).      *)
+(* SweeperOk is what stoGcSweepMixed relies on in the state it then sees;  *)
+(* see the section "Re-entrant collection" below.                          *)
 (*                                                                         *)
 (* Addresses are in abstract units; a page has PgSize units.  The client   *)
 (* side (request size, content tag, pointer fields, roots) is kept next to *)
@@ -59,7 +71,12 @@ CONSTANTS PgSize,        \* units per page
           MaxPages,      \* bound of the model: the heap never exceeds this
           ReqSizes, Codes, PtrFreeCodes, Tags, NRoots, MaxLive, MaxOps,
           GraphOps,      \* FALSE: no pointer fields, roots, recode, fill (deeper allocator histories)
-          Probe          \* a step label whose reachability ProbeInv tests ("none" otherwise)
+          Probe,         \* a step label whose reachability ProbeInv tests ("none" otherwise)
+          CarPerPage,    \* carriers (MxMemDLL) carved from one housekeeping page
+          Reentrant,     \* TRUE: operations are split at the page requests of mxmemLink; nested collections
+          FlagFirst,     \* TRUE: piecePutMixed sets isFree BEFORE mxmemLink (the two steps swapped; probe only)
+          SplitPoint,    \* TRUE: also split pieceGetMixed where it re-enters the remainder of a split piece
+          CutAtRisk      \* TRUE: collections that would give back a section that is not one free piece are cut off
 
 VARIABLES s,      \* allocator state (record, see SInit)
           cl,     \* client data: user address -> [req, tag, slots]
@@ -210,11 +227,16 @@ EnsureBT(st) ==
     ELSE LET g == PagesGet(st, 1) IN
          IF g[2] < 0 THEN [st EXCEPT !.oom = TRUE]
          ELSE [SetPages(g[1], g[2], 1, "BTree") EXCEPT !.bt = g[2]]
+(* a carrier page holds CarPerPage carriers; one is in use per distinct free size (LIFO free list:   *)
+(* a further page is asked for exactly when every carrier carved so far is in use)                 *)
+NDllPages(st) == (IF st.dll = Null THEN 0 ELSE 1) + Cardinality(st.dllx)
+CarriersExhausted(st) == Cardinality(DOMAIN st.mfl) >= NDllPages(st) * CarPerPage
 EnsureDLL(st) ==
-    IF st.dll # Null THEN st
+    IF ~CarriersExhausted(st) THEN st
     ELSE LET g == PagesGet(st, 1) IN
          IF g[2] < 0 THEN [st EXCEPT !.oom = TRUE]
-         ELSE [SetPages(g[1], g[2], 1, "DLL") EXCEPT !.dll = g[2]]
+         ELSE IF st.dll = Null THEN [SetPages(g[1], g[2], 1, "DLL") EXCEPT !.dll = g[2]]
+         ELSE [SetPages(g[1], g[2], 1, "DLL") EXCEPT !.dllx = @ \cup {g[2]}]
 
 (* mxmemUnlink + removal of an emptied DLL from the tree                   *)
 Unlink(st, m) ==
@@ -255,8 +277,8 @@ Split(st, c, nb) ==
         st2 == IF nn # Null THEN [st1 EXCEPT !.mx[nn].prev = rec.size] ELSE st1
     IN <<SetKind(st2, sp, QmNo(st2, sp, r), "F"), r>>
 
-(* piecePutMixed *)
-PiecePutMixed(st0, m) ==
+(* piecePutMixed, steps 1 and 2 (merge with free neighbours): <<state, piece to link>> *)
+PutMerge(st0, m) ==
     LET st  == EnsureBT(st0)
         p0  == MxPrev(st, m)
         n0  == MxNext(st, m)
@@ -264,28 +286,22 @@ PiecePutMixed(st0, m) ==
         nxt == IF n0 # Null /\ st.mx[n0].free THEN n0 ELSE Null
         st1 == IF nxt # Null THEN Merge(Unlink(st, nxt), m, nxt) ELSE st
         st2 == IF prv # Null THEN Merge(Unlink(st1, prv), prv, m) ELSE st1
-        mi  == IF prv # Null THEN prv ELSE m
-        st3 == Link(st2, mi)
-    IN [st3 EXCEPT !.mx[mi].free = TRUE]
+    IN <<st2, IF prv # Null THEN prv ELSE m>>
 
-(* pieceGetMixed(nbytes): [ok, st, m, path] *)
-PieceGetMixed(st0, nb) ==
-    LET st == EnsureBT(st0)
-        ge == {z \in DOMAIN st.mfl : z >= nb}
-    IN
-    IF ge # {} THEN
-        LET z   == Min(ge)
-            mi  == Head(st.mfl[z])
-            st1 == [Unlink(st, mi) EXCEPT !.mx[mi].free = FALSE]
-        IN IF z > nb + Q
-           THEN LET sp == Split(st1, mi, nb)
-                    st2 == [sp[1] EXCEPT !.mx[sp[2]].free = TRUE]
-                IN [ok |-> TRUE, m |-> mi, st |-> PiecePutMixed(st2, sp[2]), path |-> "mixed:tree-split"]
-           ELSE [ok |-> TRUE, m |-> mi, st |-> st1, path |-> "mixed:tree-exact"]
-    ELSE
-        LET small == st.frontier # Null /\ st.mx[st.frontier].size < nb
-            st1 == IF small THEN PiecePutMixed([st EXCEPT !.frontier = Null], st.frontier) ELSE st
-            fresh == st1.frontier = Null
+(* steps 3 and 4: mxmemLink, then isFree (FlagFirst: the other way round -- the same result here, *)
+(* the difference is what a collection started by mxmemLink's page request sees)                 *)
+PutFinish(st, mi) == [Link(st, mi) EXCEPT !.mx[mi].free = TRUE]
+
+(* mxmemLink(mi) will ask for a page: the size has no carrier yet and every carrier is in use *)
+LinkNeedsPage(st, mi) == st.mx[mi].size \notin DOMAIN st.mfl /\ CarriersExhausted(st)
+
+(* piecePutMixed *)
+PiecePutMixed(st0, m) == LET r == PutMerge(st0, m) IN PutFinish(r[1], r[2])
+
+(* pieceGetMixed after the tree had nothing and a too small frontier was thrown away (st1): *)
+(* new section if there is no frontier, then split or consume the frontier                 *)
+PGMFrontier(st1, nb, small) ==
+        LET fresh == st1.frontier = Null
             nq  == CeilDiv(nb, Q)
             npg == MaxOf(CeilDiv(HeadUnits + nq * Q, PgSize), MixedPgGroup)
             g   == IF fresh THEN PagesGet(st1, npg) ELSE <<st1, 0>>
@@ -309,14 +325,34 @@ PieceGetMixed(st0, nb) ==
                         (IF fresh THEN "new-frontier" ELSE "frontier") \o
                         (IF mn > nb + Q THEN "-split" ELSE "-consume")]
 
-AllocMixed(st, c, n) ==
-    LET nb == RoundUp(n + MxHead, Q)
-        r  == PieceGetMixed(st, nb)
-    IN IF ~r.ok THEN [ok |-> FALSE]
-       ELSE LET sp == r.st.mx[r.m].sect
-                qi == QmNo(r.st, sp, r.m)
-            IN [ok |-> TRUE, a |-> r.m + MxHead, size |-> r.st.mx[r.m].size - MxHead, path |-> r.path,
-                st |-> SetInfo(r.st, sp, qi, [k |-> "B", code |-> c, mark |-> FALSE])]
+(* pieceGetMixed(nbytes): [ok, st, m, path] *)
+PieceGetMixed(st0, nb) ==
+    LET st == EnsureBT(st0)
+        ge == {z \in DOMAIN st.mfl : z >= nb}
+    IN
+    IF ge # {} THEN
+        LET z   == Min(ge)
+            mi  == Head(st.mfl[z])
+            st1 == [Unlink(st, mi) EXCEPT !.mx[mi].free = FALSE]
+        IN IF z > nb + Q
+           THEN LET sp == Split(st1, mi, nb)
+                    st2 == [sp[1] EXCEPT !.mx[sp[2]].free = TRUE]
+                IN [ok |-> TRUE, m |-> mi, st |-> PiecePutMixed(st2, sp[2]), path |-> "mixed:tree-split"]
+           ELSE [ok |-> TRUE, m |-> mi, st |-> st1, path |-> "mixed:tree-exact"]
+    ELSE
+        LET small == st.frontier # Null /\ st.mx[st.frontier].size < nb
+            st1 == IF small THEN PiecePutMixed([st EXCEPT !.frontier = Null], st.frontier) ELSE st
+        IN PGMFrontier(st1, nb, small)
+
+(* stoAlloc after pieceGetMixed returned r *)
+AllocMixedDone(r, c) ==
+    IF ~r.ok THEN [ok |-> FALSE]
+    ELSE LET sp == r.st.mx[r.m].sect
+             qi == QmNo(r.st, sp, r.m)
+         IN [ok |-> TRUE, a |-> r.m + MxHead, size |-> r.st.mx[r.m].size - MxHead, path |-> r.path,
+             st |-> SetInfo(r.st, sp, qi, [k |-> "B", code |-> c, mark |-> FALSE])]
+
+AllocMixed(st, c, n) == AllocMixedDone(PieceGetMixed(st, RoundUp(n + MxHead, Q)), c)
 
 FreeMixed(st, sp, a) ==
     LET pc == a - MxHead
@@ -410,11 +446,17 @@ SweepMixed(st, sp, M) ==
         st1 == SweepPieces(st, sp, M, sc.data)
         anyBusy == \E i \in 0..(sc.cnt - 1) : st1.sects[sp].info[i].k = "B"
         hasFront == st1.frontier # Null /\ st1.mx[st1.frontier].sect = sp
+        \* stoGcSweepMixed gives the pages back after unlinking the piece at sect->data: it takes the
+        \* section to be ONE free, linked piece.  Where it is not (possible only after a collection that
+        \* started inside an operation), the model records the fact (risk) instead of the damage.
+        single == {x \in DOMAIN st1.mx : st1.mx[x].sect = sp} = {sc.data} /\ st1.mx[sc.data].free
     IN IF ~anyBusy /\ ~hasFront
-       THEN LET st2 == Unlink(st1, sc.data)
-                st3 == PagesPut(st2, sp, sc.np)
-            IN [st3 EXCEPT !.sects = Del(st3.sects, {sp}),
-                           !.mx = Del(st3.mx, {x \in DOMAIN st3.mx : st3.mx[x].sect = sp})]
+       THEN IF single
+            THEN LET st2 == Unlink(st1, sc.data)
+                     st3 == PagesPut(st2, sp, sc.np)
+                 IN [st3 EXCEPT !.sects = Del(st3.sects, {sp}),
+                                !.mx = Del(st3.mx, {x \in DOMAIN st3.mx : st3.mx[x].sect = sp})]
+            ELSE [st1 EXCEPT !.risk = TRUE]
        ELSE st1
 
 RECURSIVE SweepAll(_, _, _)
@@ -429,13 +471,71 @@ StoGc(st, c, r) ==
     IN SweepAll(st0, DOMAIN st.sects, M)
 
 ---------------------------------------------------------------------------
+(* Re-entrant collection                                                   *)
+(*                                                                         *)
+(* The three places where piecePutMixed runs inside a public operation:    *)
+(*   "free"     stoFree(a): quantum tagged free, piecePutMixed(piece)      *)
+(*   "discard"  pieceGetMixed: mixedFrontier = 0, piecePutMixed(old        *)
+(*              frontier), then a new section                              *)
+(*   "split"    pieceGetMixed: piece unlinked, split, remainder flagged    *)
+(*              free, piecePutMixed(remainder)       (only if SplitPoint)  *)
+(* In each, piecePutMixed merges, then calls mxmemLink; if the size is new *)
+(* and no carrier is left, mxmemLink asks for a page and the collector may *)
+(* run on the state reached so far.  s.pend records where the operation    *)
+(* stopped: [k, m (piece to link), m2 (piece being allocated, "split"),    *)
+(* gcd (a nested collection has run), c, n, t, nb (pending allocation)].   *)
+
+NoPend == [k |-> "none", m |-> Null, m2 |-> Null, gcd |-> FALSE, c |-> 0, n |-> 0, t |-> 0, nb |-> 0]
+Pending(st) == st.pend.k # "none"
+
+(* stoFree of a mixed piece up to mxmemLink: <<state, piece to link>> *)
+FreePrefix(st, a) ==
+    LET sp == SectFor(st, a) IN PutMerge(SetInfo(st, sp, QmNo(st, sp, a), FreeQ), a - MxHead)
+FreeWaits(st, a) ==
+    /\ Reentrant /\ ~st.sects[SectFor(st, a)].fixed
+    /\ LET r == FreePrefix(st, a) IN LinkNeedsPage(r[1], r[2])
+
+(* pieceGetMixed up to mxmemLink of the thrown-away frontier *)
+DiscardCase(st0, nb) ==
+    LET st == EnsureBT(st0) IN
+    /\ {z \in DOMAIN st.mfl : z >= nb} = {}
+    /\ st.frontier # Null /\ st.mx[st.frontier].size < nb
+DiscardPrefix(st0) == LET st == EnsureBT(st0) IN PutMerge([st EXCEPT !.frontier = Null], st.frontier)
+DiscardWaits(st, n) ==
+    /\ Reentrant /\ n > FixedMax
+    /\ DiscardCase(st, RoundUp(n + MxHead, Q))
+    /\ LET r == DiscardPrefix(st) IN LinkNeedsPage(r[1], r[2])
+
+(* pieceGetMixed up to mxmemLink of the remainder of a split piece: <<state, remainder, piece taken>> *)
+SplitCase(st0, nb) ==
+    LET st == EnsureBT(st0)
+        ge == {z \in DOMAIN st.mfl : z >= nb}
+    IN ge # {} /\ Min(ge) > nb + Q
+SplitPrefix(st0, nb) ==
+    LET st  == EnsureBT(st0)
+        z   == Min({y \in DOMAIN st.mfl : y >= nb})
+        mi  == Head(st.mfl[z])
+        st1 == [Unlink(st, mi) EXCEPT !.mx[mi].free = FALSE]
+        sp  == Split(st1, mi, nb)
+        r   == PutMerge([sp[1] EXCEPT !.mx[sp[2]].free = TRUE], sp[2])      \* the code sets the flag before piecePutMixed
+    IN <<r[1], r[2], mi>>
+SplitWaits(st, n) ==
+    /\ Reentrant /\ SplitPoint /\ n > FixedMax
+    /\ SplitCase(st, RoundUp(n + MxHead, Q))
+    /\ LET r == SplitPrefix(st, RoundUp(n + MxHead, Q)) IN LinkNeedsPage(r[1], r[2])
+
+(* pieces that are neither busy nor flagged free nor the frontier: the half-done ones *)
+Exposed(st) == {m \in DOMAIN st.mx : /\ ~st.mx[m].free /\ m # st.frontier
+                                      /\ st.sects[st.mx[m].sect].info[QmNo(st, st.mx[m].sect, m)].k = "F"}
+
+---------------------------------------------------------------------------
 (* The specification                                                       *)
 
 SlotsFor(n) == IF n >= 2 THEN <<Null>> ELSE <<>>     \* one pointer field in blocks of >= 2 units
 
 SInit == [pg |-> <<"PgMap">>, hint |-> 0, sects |-> <<>>, mx |-> <<>>,
           ffl |-> [i \in 1..Len(FixedSizes) |-> <<>>], mfl |-> <<>>,
-          frontier |-> Null, bt |-> Null, dll |-> Null, oom |-> FALSE]
+          frontier |-> Null, bt |-> Null, dll |-> Null, dllx |-> {}, oom |-> FALSE, pend |-> NoPend, risk |-> FALSE]
 
 Init == /\ s = SInit
         /\ cl = <<>>
@@ -468,6 +568,7 @@ Targets == {Null} \cup DOMAIN cl \cup {a + 1 : a \in {b \in DOMAIN cl : cl[b].re
 
 IAlloc == \E c \in Codes, n \in ReqSizes, t \in Tags :
     LET r == StoAlloc(s, c, n) IN
+    /\ ~Pending(s) /\ ~DiscardWaits(s, n) /\ ~SplitWaits(s, n)
     /\ ops < MaxOps /\ Cardinality(DOMAIN cl) < MaxLive
     /\ r.ok /\ ~r.st.oom
     /\ s' = r.st
@@ -478,6 +579,7 @@ IAlloc == \E c \in Codes, n \in ReqSizes, t \in Tags :
 
 IFree == \E a \in DOMAIN cl :
     LET st1 == StoFree(s, a) IN
+    /\ ~Pending(s) /\ ~FreeWaits(s, a)
     /\ ops < MaxOps /\ ~st1.oom
     /\ s' = st1
     /\ cl' = Del(cl, {a})
@@ -487,6 +589,7 @@ IFree == \E a \in DOMAIN cl :
 
 IResize == \E a \in DOMAIN cl, n \in ReqSizes :
     LET r == StoResize(s, a, n) IN
+    /\ ~Pending(s) /\ ~Reentrant        \* (stoResize = stoAlloc + stoFree: not split; left out of the re-entrant configurations)
     /\ ops < MaxOps
     /\ r.ok /\ ~r.st.oom
     /\ s' = r.st
@@ -498,28 +601,28 @@ IResize == \E a \in DOMAIN cl, n \in ReqSizes :
     /\ ops' = ops + 1 /\ UNCHANGED roots
 
 IRecode == GraphOps /\ \E a \in DOMAIN cl, c \in Codes :
-    /\ ops < MaxOps /\ c # CodeOf(s, a)
+    /\ ~Pending(s) /\ ops < MaxOps /\ c # CodeOf(s, a)
     /\ s' = StoRecode(s, a, c)
     /\ last' = <<"Recode", a>>
     /\ wit' = [op |-> "Recode", a |-> a, c |-> c, tags |-> {"recode"}]
     /\ ops' = ops + 1 /\ UNCHANGED <<cl, roots>>
 
 IFill == GraphOps /\ \E a \in DOMAIN cl, t \in Tags :
-    /\ ops < MaxOps /\ t # cl[a].tag
+    /\ ~Pending(s) /\ ops < MaxOps /\ t # cl[a].tag
     /\ cl' = [cl EXCEPT ![a].tag = t]
     /\ last' = <<"Fill", a>>
     /\ wit' = [op |-> "Fill", a |-> a, t |-> t, tags |-> {"fill"}]
     /\ ops' = ops + 1 /\ UNCHANGED <<s, roots>>
 
 IWrite == GraphOps /\ \E a \in DOMAIN cl, x \in Targets :
-    /\ ops < MaxOps /\ Len(cl[a].slots) = 1 /\ cl[a].slots[1] # x
+    /\ ~Pending(s) /\ ops < MaxOps /\ Len(cl[a].slots) = 1 /\ cl[a].slots[1] # x
     /\ cl' = [cl EXCEPT ![a].slots[1] = x]
     /\ last' = <<"Write", a>>
     /\ wit' = [op |-> "Write", a |-> a, i |-> 1, x |-> x, tags |-> {"write"}]
     /\ ops' = ops + 1 /\ UNCHANGED <<s, roots>>
 
 ISetRoot == GraphOps /\ \E k \in 1..NRoots, x \in Targets :
-    /\ ops < MaxOps /\ roots[k] # x
+    /\ ~Pending(s) /\ ops < MaxOps /\ roots[k] # x
     /\ roots' = [roots EXCEPT ![k] = x]
     /\ last' = <<"SetRoot", Null>>
     /\ wit' = [op |-> "SetRoot", k |-> k, x |-> x, tags |-> {"setroot"}]
@@ -527,14 +630,100 @@ ISetRoot == GraphOps /\ \E k \in 1..NRoots, x \in Targets :
 
 ICollect ==
     LET st1 == StoGc(s, cl, roots) IN
-    /\ ops < MaxOps /\ DOMAIN cl # {} /\ ~st1.oom
+    /\ ~Pending(s) /\ ops < MaxOps /\ DOMAIN cl # {} /\ ~st1.oom
+    /\ (CutAtRisk => ~st1.risk)
     /\ s' = st1
     /\ cl' = [a \in Busy(st1) |-> cl[a]]
     /\ last' = <<"Collect", Null>>
     /\ wit' = [op |-> "Collect", S |-> Busy(st1), tags |-> CollectLabels(s, st1)]
     /\ ops' = ops + 1 /\ UNCHANGED roots
 
+(* --- operations that stop at mxmemLink's page request (Reentrant) --- *)
+
+IFreeBegin == \E a \in DOMAIN cl :
+    /\ ~Pending(s) /\ ops < MaxOps /\ FreeWaits(s, a)
+    /\ LET r == FreePrefix(s, a) IN
+       /\ ~r[1].oom
+       /\ s' = [r[1] EXCEPT !.mx[r[2]].free = FlagFirst, !.pend = [NoPend EXCEPT !.k = "free", !.m = r[2]]]
+    /\ cl' = Del(cl, {a})
+    /\ last' = <<"Free", a>>
+    /\ wit' = [op |-> "Free", a |-> a, tags |-> {FreeLabel(s, a), "reent:free-waits"}]
+    /\ ops' = ops + 1 /\ UNCHANGED roots
+
+IAllocBeginDiscard == \E c \in Codes, n \in ReqSizes, t \in Tags :
+    /\ ~Pending(s) /\ ops < MaxOps /\ Cardinality(DOMAIN cl) < MaxLive /\ DiscardWaits(s, n)
+    /\ LET r == DiscardPrefix(s) IN
+       /\ ~r[1].oom
+       /\ s' = [r[1] EXCEPT !.mx[r[2]].free = FlagFirst,
+                            !.pend = [NoPend EXCEPT !.k = "discard", !.m = r[2], !.c = c, !.n = n, !.t = t, !.nb = RoundUp(n + MxHead, Q)]]
+    /\ wit' = [op |-> "Stutter", tags |-> {"reent:discard-waits"}]
+    /\ ops' = ops + 1 /\ UNCHANGED <<cl, roots, last>>
+
+IAllocBeginSplit == \E c \in Codes, n \in ReqSizes, t \in Tags :
+    /\ ~Pending(s) /\ ops < MaxOps /\ Cardinality(DOMAIN cl) < MaxLive /\ SplitWaits(s, n) /\ ~DiscardWaits(s, n)
+    /\ LET r == SplitPrefix(s, RoundUp(n + MxHead, Q)) IN
+       /\ ~r[1].oom
+       /\ s' = [r[1] EXCEPT !.pend = [NoPend EXCEPT !.k = "split", !.m = r[2], !.m2 = r[3], !.c = c, !.n = n, !.t = t,
+                                                    !.nb = RoundUp(n + MxHead, Q)]]
+    /\ wit' = [op |-> "Stutter", tags |-> {"reent:split-waits"}]
+    /\ ops' = ops + 1 /\ UNCHANGED <<cl, roots, last>>
+
+(* what surrounds the half-done piece when the nested collection starts: exported (PrintT) so that the *)
+(* harness can set up the same situations in the real allocator                                      *)
+PieceKind(st, x, M) ==
+    IF x = Null THEN "none" ELSE IF x = st.frontier THEN "frontier" ELSE IF st.mx[x].free THEN "free"
+    ELSE IF st.sects[st.mx[x].sect].info[QmNo(st, st.mx[x].sect, x)].k # "B" THEN "half-done"
+    ELSE IF (x + MxHead) \in M THEN "live" ELSE "garbage"
+GcPoint ==
+    LET m  == s.pend.m
+        sp == s.mx[m].sect
+        M  == Marked(s, cl, roots)
+        p  == MxPrev(s, m)
+        n  == MxNext(s, m)
+    IN <<"GCPOINT", s.pend.k, PieceKind(s, p, M), PieceKind(s, n, M),
+         \E a \in BusyIn(s, sp) \cap M : (a - MxHead) \notin {p, n},
+         s.frontier # Null /\ s.mx[s.frontier].sect = sp>>
+
+(* pagesGet finds no free page (or hook H1b forces it): the collector runs on the half-done state *)
+IPendGc ==
+    LET st1 == StoGc(s, cl, roots) IN
+    /\ Pending(s) /\ ~s.pend.gcd
+    /\ (CutAtRisk => ~st1.risk /\ ~(st1.mx[s.pend.m].size \in DOMAIN st1.mfl))
+    /\ ~st1.oom
+    /\ PrintT(GcPoint)
+    /\ s' = [st1 EXCEPT !.pend.gcd = TRUE]
+    /\ cl' = [a \in Busy(st1) |-> cl[a]]
+    /\ last' = <<"Collect", Null>>
+    /\ wit' = [op |-> "Collect", S |-> Busy(st1), tags |-> CollectLabels(s, st1) \cup {"reent:nested-collect"}]
+    /\ UNCHANGED <<roots, ops>>
+
+(* the page arrives; mxmemLink and the rest of the operation.  mxmemLink looked the size up BEFORE it *)
+(* asked for the page (btreeSearchEQ: absent); if the nested collection has linked a swept piece of   *)
+(* that very size, the key is inserted a second time (known finding; recorded as risk, cut off).      *)
+IPendEnd ==
+    /\ Pending(s)
+    /\ LET pd  == s.pend
+           dup == s.mx[pd.m].size \in DOMAIN s.mfl
+           st1 == PutFinish([s EXCEPT !.pend = NoPend, !.risk = @ \/ dup], pd.m)
+       IN /\ (CutAtRisk => ~dup)
+          /\ IF pd.k = "free"
+             THEN /\ ~st1.oom
+                  /\ s' = st1
+                  /\ wit' = [op |-> "Stutter", tags |-> {"reent:free-ends"} \cup (IF pd.gcd THEN {"reent:free-ends-after-collect"} ELSE {})]
+                  /\ UNCHANGED <<cl, last>>
+             ELSE LET r  == IF pd.k = "discard" THEN PGMFrontier(st1, pd.nb, TRUE)
+                            ELSE [ok |-> TRUE, m |-> pd.m2, st |-> st1, path |-> "mixed:tree-split"]
+                      ra == AllocMixedDone(r, pd.c)
+                  IN /\ ra.ok /\ ~ra.st.oom
+                     /\ s' = ra.st
+                     /\ cl' = Upd(cl, ra.a, [req |-> pd.n, tag |-> pd.t, slots |-> SlotsFor(pd.n)])
+                     /\ last' = <<"Alloc", ra.a>>
+                     /\ wit' = [op |-> "Alloc", c |-> pd.c, n |-> pd.n, a |-> ra.a, sz |-> ra.size, t |-> pd.t,
+                                tags |-> {ra.path, "reent:alloc-ends"} \cup (IF pd.gcd THEN {"reent:alloc-ends-after-collect"} ELSE {})]
+    /\ UNCHANGED <<roots, ops>>
+
 Next == IAlloc \/ IFree \/ IResize \/ IRecode \/ IFill \/ IWrite \/ ISetRoot \/ ICollect
+        \/ IFreeBegin \/ IAllocBeginDiscard \/ IAllocBeginSplit \/ IPendGc \/ IPendEnd
 
 Spec == Init /\ [][Next]_vars
 
@@ -558,6 +747,7 @@ AbsStep ==
       [] w.op = "Write"   -> A!Write(w.a, w.i, w.x)
       [] w.op = "SetRoot" -> A!SetRoot(w.k, w.x)
       [] w.op = "Collect" -> A!Collect(w.S)
+      [] w.op = "Stutter" -> LiveMap' = LiveMap /\ UNCHANGED <<roots, last>>      \* an internal step of a split operation
 
 Refines == [][AbsStep]_vars
 
@@ -601,7 +791,9 @@ AuditFixed ==
 
 PiecesOf(sp) == {m \in DOMAIN s.mx : s.mx[m].sect = sp}
 
-AuditMixed ==
+(* the pieces of every mixed section tile it; neighbours agree about their sizes (what every walk *)
+(* over a section -- audit, sweeper, marker -- relies on)                                         *)
+AuditMixedShape ==
     /\ \A sp \in DOMAIN s.sects : ~s.sects[sp].fixed =>
           LET sc == s.sects[sp] IN
           /\ sc.q = Q
@@ -618,12 +810,27 @@ AuditMixed ==
                                           /\ s.mx[m - s.mx[m].prev].size = s.mx[m].prev)
                    /\ (~s.mx[m].last => (m + s.mx[m].size) \in PiecesOf(sp))
                    /\ ~sc.info[qi].mark
-                   /\ (IF s.mx[m].free \/ m = s.frontier THEN sc.info[qi].k = "F" ELSE sc.info[qi].k = "B")
+                   /\ sc.info[qi].k \in {"F", "B"}
                    /\ \A j \in (qi + 1)..(qi + nq - 1) : sc.info[j].k = "o" /\ ~sc.info[j].mark
           \* the pieces tile the section
           /\ sc.data \in PiecesOf(sp)
           /\ \A i \in 0..(sc.cnt - 1) : sc.info[i].k # "o" => (sc.data + i * Q) \in PiecesOf(sp)
-    \* the free tree: every entry is a free piece of that size, every free piece is in the tree once
+    /\ (s.mfl # <<>> => s.bt # Null /\ s.dll # Null)
+    /\ (s.bt # Null => PgKind(s, s.bt) = "BTree")
+    /\ (s.dll # Null => PgKind(s, s.dll) = "DLL")
+    /\ \A p \in s.dllx : PgKind(s, p) = "DLL"
+    /\ (s.frontier # Null => s.frontier \in DOMAIN s.mx /\ ~s.mx[s.frontier].free)
+
+(* a piece is tagged free exactly if its flag is set or it is the frontier *)
+AuditMixedKinds ==
+    \A m \in DOMAIN s.mx :
+        LET sc == s.sects[s.mx[m].sect] IN
+        IF s.mx[m].free \/ m = s.frontier THEN sc.info[QmNo(s, s.mx[m].sect, m)].k = "F"
+        ELSE sc.info[QmNo(s, s.mx[m].sect, m)].k = "B"
+
+(* the free index and the free flags agree: every entry is a flagged piece of that size, once; *)
+(* every flagged piece is in the index                                                          *)
+FlagIndexOk ==
     /\ \A z \in DOMAIN s.mfl :
           /\ s.mfl[z] # <<>>
           /\ \A i \in 1..Len(s.mfl[z]) :
@@ -634,14 +841,24 @@ AuditMixed ==
     /\ \A m \in DOMAIN s.mx : s.mx[m].free =>
           /\ s.mx[m].size \in DOMAIN s.mfl
           /\ \E i \in 1..Len(s.mfl[s.mx[m].size]) : s.mfl[s.mx[m].size][i] = m
-    /\ (s.mfl # <<>> => s.bt # Null /\ s.dll # Null)
-    /\ (s.bt # Null => PgKind(s, s.bt) = "BTree")
-    /\ (s.dll # Null => PgKind(s, s.dll) = "DLL")
-    \* two adjacent pieces are never both free (free pieces are merged)
-    /\ \A m \in DOMAIN s.mx : (s.mx[m].free /\ ~s.mx[m].last) => ~s.mx[m + s.mx[m].size].free
-    /\ (s.frontier # Null => s.frontier \in DOMAIN s.mx /\ ~s.mx[s.frontier].free)
 
-AuditInv == AuditPages /\ AuditFixed /\ AuditMixed
+(* two adjacent pieces are never both free (free pieces are merged).  store.c's audit does not ask  *)
+(* for this, and a nested collection can leave a swept neighbour next to the piece being freed.     *)
+Coalesced == \A m \in DOMAIN s.mx : (s.mx[m].free /\ ~s.mx[m].last) => ~s.mx[m + s.mx[m].size].free
+
+AuditMixed == AuditMixedShape /\ AuditMixedKinds /\ FlagIndexOk /\ (Reentrant \/ Coalesced)
+
+(* ... and, when it gives a section back, that the section is one free, linked piece.  NOT        *)
+(* guaranteed by store.c once a collection has started inside an operation (known finding):       *)
+(* the re-entrant configuration cuts such collections off (CutAtRisk), the probe shows them.      *)
+NoRisk == ~s.risk
+
+(* stoAudit is called between public operations *)
+AuditInv == ~Pending(s) => AuditPages /\ AuditFixed /\ AuditMixed /\ NoRisk
+
+(* What stoGcSweepMixed relies on when a collection starts inside a public operation: the shape, *)
+(* and that it may unlink every neighbour whose flag is set.                                      *)
+SweeperOk == (Pending(s) /\ ~s.pend.gcd) => AuditPages /\ AuditFixed /\ AuditMixedShape /\ FlagIndexOk
 
 ProbeInv == Probe \notin wit.tags
 
